@@ -94,6 +94,31 @@ Proof.
     + apply (agg_spec_range ty vs2 N2 R2).
 Qed.
 
+(* range half, as a statement of its own *)
+Theorem tree_range t e now st : mono_tree t -> env_le_on t e e ->
+  exists v, eval t e now st = (Val v, st) /\ 0 <= v <= 255.
+Proof.
+  intros M L. destruct (tree_mono t e e now now st st M L) as (v1 & v2 & E1 & E2 & A & B & C).
+  exists v1. split; [exact E1|]. rewrite E1 in E2. inversion E2; subst. lia.
+Qed.
+
+(* the range statement over ALL well-formed trees (any of the six function types, PID leaves):
+   kept visible, not proved as one theorem (see Props/C06.v for the parts that are) *)
+Definition leaf_range (c : lincfg) : Prop :=
+  forall T, is_nan T = false -> exists v, eval_lin c T = Val v /\ 0 <= v <= 255.
+Fixpoint wf_tree (t : curve) : Prop :=
+  match t with
+  | Lin c => leaf_range c
+  | PidC _ => True
+  | Fn _ ms => ms <> [] /\ Z.of_nat (length ms) < 2 ^ 40 /\
+               (fix go (l : list curve) : Prop := match l with [] => True | m :: r => wf_tree m /\ go r end) ms
+  end.
+Definition env_finite (e : env) : Prop :=
+  forall id s, lookup_sensor e id = Some s -> is_nan (s_avg s) = false.
+Definition range_full : Prop :=
+  forall t e now st v st', wf_tree t -> env_finite e -> rt_nan st = false ->
+  eval t e now st = (Val v, st') -> rt_nan st' = false -> 0 <= v <= 255.
+
 (* ---- C07_request ---- *)
 Lemma clamp_target_mono v v' : v <= v' -> clamp_target v <= clamp_target v'.
 Proof.
